@@ -151,6 +151,10 @@ func c04World(t *testing.T, p c04Params) rt.Result {
 		w.DialPolicy = func(hz.DialReq) (hz.DialAction, time.Duration) { return hz.DialAccept, 0 }
 		mon := w.MustAddPeer(ps)
 		r := rand.New(rand.NewPCG(p.Seed, 4242))
+		defer func() { // also on early returns: no writer may outlive the world
+			st.stop.Store(true)
+			st.wg.Wait()
+		}()
 
 		var conns []*hz.RConn
 		silent := 0
@@ -175,6 +179,23 @@ func c04World(t *testing.T, p c04Params) rt.Result {
 				w.Violate("epoch %d: session not Established", ep)
 				return
 			}
+			// a send buffer that is full now and then: a Write call blocks before it
+			// takes effect (atomically, as on a real socket)
+			sr := rand.New(rand.NewPCG(p.Seed, uint64(7000+ep)))
+			var smu sync.Mutex
+			stallFn := func() time.Duration {
+				smu.Lock()
+				defer smu.Unlock()
+				switch k := sr.IntN(100); {
+				case k < 85:
+					return 0
+				case k < 95:
+					return time.Duration(1 + sr.IntN(2000))
+				default:
+					return time.Duration(sr.IntN(1300)) * time.Millisecond
+				}
+			}
+			rc.Pair.SetWriteDelay0(stallFn)
 			// keep the session alive and poke the handler
 			life := time.Duration(300+r.IntN(3500)) * time.Millisecond
 			end := w.Now() + life
@@ -193,6 +214,7 @@ func c04World(t *testing.T, p c04Params) rt.Result {
 					rc.SendUpdate(updBody(rc.ID, 0))
 				}
 			}
+			rc.Pair.SetWriteDelay0(nil) // writes already blocked finish within 1.3 s
 			if ep == p.Epochs-1 {
 				break
 			}
@@ -212,8 +234,8 @@ func c04World(t *testing.T, p c04Params) rt.Result {
 				time.Sleep(time.Duration(60<<min(silent-1, 3))*time.Second + time.Second)
 			}
 			w.Settle()
-			for i := 0; i < 50 && mon.Up(); i++ {
-				w.Settle()
+			for i := 0; i < 300 && mon.Up(); i++ { // a blocked write may delay the teardown by up to 1.3 s
+				time.Sleep(10 * time.Millisecond)
 			}
 			if mon.Up() {
 				w.Violate("epoch %d: session still up after teardown by %s", ep, td)
@@ -222,6 +244,7 @@ func c04World(t *testing.T, p c04Params) rt.Result {
 			// stale writers keep hammering for a while
 			time.Sleep(time.Duration(r.IntN(500)) * time.Millisecond)
 		}
+		time.Sleep(1400 * time.Millisecond) // let blocked writes drain so that Close is judged on its own
 		w.Close()
 		st.stop.Store(true)
 		time.Sleep(200 * time.Millisecond)
